@@ -200,6 +200,9 @@ func c01NestedSelectorBound(c *core.Check) {
 									case (cmp.Op == token.GTR || cmp.Op == token.GEQ) && side == cmp.X, (cmp.Op == token.LSS || cmp.Op == token.LEQ) && side == cmp.Y:
 										guards = append(guards, a)
 										guardTrueMeansTooLarge[a] = true
+									case (cmp.Op == token.LSS || cmp.Op == token.LEQ) && side == cmp.X, (cmp.Op == token.GTR || cmp.Op == token.GEQ) && side == cmp.Y:
+										guards = append(guards, a)
+										guardTrueMeansTooLarge[a] = false
 									}
 								}
 							}
@@ -226,8 +229,12 @@ func c01NestedSelectorBound(c *core.Check) {
 			return
 		}
 		ok2, _ := core.GuardedBy(fn, rec.Block(), guards, func(m map[ssa.Value]bool) bool {
-			for _, v := range m {
-				if v {
+			for a, v := range m {
+				tooLargeWhen, known := guardTrueMeansTooLarge[a]
+				if !known {
+					tooLargeWhen = true // a boolean test function: true means "exceeds"
+				}
+				if v == tooLargeWhen {
 					return false
 				}
 			}
